@@ -53,7 +53,11 @@ FilesInc == [
   nest2 |-> [dir |-> "include", lines |-> << E("b"), (SInclude("nest", <<>>) @@ [ind |-> "  "]) >>],
   blk   |-> [dir |-> "include", lines |-> << LStart("assemble", ""), E("a"), LConcat, E("b"), E("a"), LEnd >>],
   xdir  |-> [dir |-> "exclude", lines |-> << E("ba"), E("b") >>],
-  flg   |-> [dir |-> "include", lines |-> << SFlags(<<"i">>), E("a") >>]
+  flg   |-> [dir |-> "include", lines |-> << SFlags(<<"i">>), E("a") >>],
+  \* the LAST entry of a file with a prefix ends in a blank: the blank belongs to the entry
+  pfxsp |-> [dir |-> "include", lines |-> << SPrefix(<<W("a")>>), E("b"), E("ab ") >>],
+  \* flags in an include file that has neither prefix nor suffix: rejected all the same
+  flgonly |-> [dir |-> "include", lines |-> << E("b"), SFlags(<<"s">>) >>]
 ]
 
 FilesIncAll == FilesInc @@ ("v8.1" :> [dir |-> "include", lines |-> << E("ab"), E("b") >>])
@@ -66,6 +70,9 @@ FilesExc == [
   x3    |-> [dir |-> "exclude", lines |-> << >>],
   x4    |-> [dir |-> "exclude", lines |-> << E("ab"), E("ba"), E("bb"), E("a"), E("b"), E("aab") >>],
   xv    |-> [dir |-> "exclude", lines |-> << SEntry(<<W("a"), PRef("v")>>) >>],
+  \* exclude files that define the same name differently: the one listed first decides
+  xd1   |-> [dir |-> "exclude", lines |-> << SDefine("s", <<W("b")>>), SEntry(<<W("b"), PRef("s")>>) >>],
+  xd2   |-> [dir |-> "exclude", lines |-> << SDefine("s", <<W("a")>>), SEntry(<<W("b"), PRef("s")>>) >>],
   xc    |-> [dir |-> "exclude", lines |-> << SComment("##! nothing to exclude here"), SBlank(""), SDefine("u", <<W("b")>>) >>],
   \* a word list whose order shows in the output (no common prefixes), with a repeated entry
   f3    |-> [dir |-> "include", lines |-> << E("cu"), E("wg"), E("cu"), E("nm"), E("py") >>],
@@ -92,7 +99,7 @@ VocInc == << E("a"), E("b"), SEntry(<<PRef("v")>>), SEntry(<<PRef("w"), W("a")>>
              SDefine("v", <<W("bb")>>), SDefine("w", <<ClsAB>>) >>
           \o << IncOf("plain"), (IncOf("plain") @@ [ext |-> TRUE]), IncOf("noisy"), IncOf("pfx"), IncOf("sfx"),
                 IncOf("both"), IncOf("defs"), IncOf("nest"), IncOf("nest2"), IncOf("blk"), IncOf("xdir"),
-                IncOf("flg"), IncOf("missing"), IncOf("v8.1"),
+                IncOf("flg"), IncOf("missing"), IncOf("v8.1"), IncOf("pfxsp"), IncOf("flgonly"),
                 \* the same file once with a suffix replacement and once plain (in either order)
                 SInclude("plain", << <<"a", "b">> >>), SInclude("nest", << <<"b", "\"\"">> >>) >>
           \o Blocks \o << LStore("x"), LLoad("x") >>
@@ -102,6 +109,7 @@ Pairs2 == << <<"b", "\"\"">> >>
 Pairs3 == << <<"a", "b">>, <<"b", "ab">> >>          \* the replacement of the first ends in the key of the second
 Pairs4 == << <<"ab", "b">>, <<"b", "a">> >>          \* one key is an ending of the other
 Pairs5 == << <<"bb", "a">>, <<"zz", "b">>, <<"ab", "\"\"">> >>
+Pairs6 == << <<"b", "\"\"">>, <<"a", "b">> >>      \* what a deletion leaves over ends in the key of a later pair
 \* (an entry that consists of nothing but a deleted ending is outside the model: the
 \* statement does not say whether an empty entry or no entry results)
 
@@ -111,7 +119,8 @@ VocExc == << E("b"),
              SInclExc("f2", <<"x1", "x3">>, <<>>),
              SInclExc("f1", <<"x1">>, Pairs1), SInclExc("f1", <<"x2">>, Pairs3), SInclExc("f2", <<"x3">>, Pairs4),
              SInclude("f1", Pairs1), SInclude("f1", Pairs2), SInclude("f1", Pairs3), SInclude("f1", Pairs4),
-             SInclude("f1", Pairs5), SInclude("f2", Pairs3), SInclude("f2", <<>>),
+             SInclExc("f1", <<"xd1", "xd2">>, <<>>), SInclExc("f1", <<"xd2", "xd1">>, <<>>), SInclExc("f3", <<"xd2", "x3", "xd1">>, <<>>),
+             SInclude("f1", Pairs5), SInclude("f2", Pairs3), SInclude("f2", <<>>), SInclude("f1", Pairs6),
              \* keys that are also the ending of a directive line: only entries may be rewritten
              \* an exclude file without entries listed BEFORE one with entries
              SInclExc("f1", <<"x3", "x2">>, <<>>), SInclExc("f3", <<"xc", "x1", "x3">>, <<>>), SInclExc("f2", <<"xc", "xv">>, <<>>),
@@ -126,6 +135,7 @@ VocDef == << SDefine("p", <<W("a")>>), SDefine("q", <<PRef("p"), Aplus>>), SDefi
              SEntry(<<PRef("p")>>), SEntry(<<W("b"), PRef("q")>>), SEntry(<<PRef("r")>>), SEntry(<<PRef("s"), PRef("p")>>),
              SEntry(<<PRef("u"), W("a")>>), E("b"),
              SPrefix(<<PRef("p")>>), SSuffix(<<PRef("s")>>), IncOf("dinc"),
+             SPrefix(<<PRef("q")>>),                              \* a NESTED definition used by a prefix line
              LStart("assemble", ""), LEnd, LConcat >>
 
 Voc0 == CASE Family = "inc" -> VocInc [] Family = "exc" -> VocExc [] Family = "def" -> VocDef
